@@ -104,6 +104,12 @@ prop("C18", claimed=True, level="model_checking", engine="E-SEQ (explicit-state 
      note="Concurrent creation attempts are only exercised by an auxiliary sampled race of 4 real threads (labelled as such in the evidence): atomicity inside a directory's open_write has no scheduling point the harness could control. Cross-process locking is exercised in-process with separate Index instances.",
      design_ref="3/C18")
 
+prop("C11", claimed=True, level="fault_enumeration", engine="E-FAULT (SimDirectory, isolated workers)",
+     technique="exhaustive fault enumeration: every storage operation of each workload's fault-free log fails once and permanently, under every continuation policy, on the real writer / reader over the simulated directory",
+     text="For each workload (quick: add + commit, add + delete + commit; thorough: + merge + GC, reader reloads, rollback + writer restart) x writer configuration (1-2 workers, dedicated doc-store compressor thread on / off), every storage operation of the fault-free log - create, write, flush, terminate, atomic write, atomic read, open, exists, delete, directory sync, lock acquisition, on the indexing workers, the compressor thread, the segment updater, merge threads and the caller - is made to fail once and permanently from there on, and after the first reported error the driver continues with rollback, with a new writer, or with the same writer: no panic, abort or hang; every commit returning Ok is complete, readable and checksum-clean in a fresh open; after an error the storage holds the last Ok commit or a failed commit's complete state; finally a new writer adds, commits and collects and the directory holds exactly the committed files.",
+     note="Single faults (once / permanent) only; faults are injected at the Directory trait seam of SimDirectory, whose durability / lock model is bound to MmapDirectory by C01's conformance pass; targets are identified by (logical thread, per-thread operation index) of the fault-free run.",
+     design_ref="3/C11")
+
 ALL = ["C%02d" % i for i in range(1, 21)]
 REASON_TODO = "check not built yet in this revision of /verif (design in DESIGN.md section 3); will be claimed when its engine lands"
 
